@@ -9,7 +9,7 @@ for d in sorted(glob.glob('/verif/seeded/*/meta.json')):
     missed = ', '.join(k for k, v in m.get('detection', {}).items() if not v.get('detected'))
     summ = ' '.join(m.get('summary', '').split())[:230].replace('|', '/')
     need = ' '.join(m.get('needs_to_manifest', '').split())[:200].replace('|', '/')
-    rows.append('| %s | %s | %s | %s | %s | %s |' % (sid, summ, need, det or '-', missed or '', 'strengthened: ' + m['history'][:220].replace('|', '/') if m.get('history') else 'first run'))
+    rows.append('| %s | %s | %s | %s | %s | %s |' % (sid, summ, need, det or '-', missed or '', 'strengthened: ' + (m['history'] if isinstance(m['history'], str) else ' ; '.join(m['history']))[:260].replace('|', '/').replace('\n', ' ') if m.get('history') else 'first run'))
 own = '/verif/seeded/own/RESULTS.json'
 text = ['# Seeded changes and the checks that detect them', '',
         'Independent changes (sub-agents that saw only the property text and a scratch worktree); each confirmed: pinned suite 155/155 with the change, demo fails with / passes without it.', '',
